@@ -134,14 +134,30 @@ func (b *baseExecutor) traversalArgs(node ast.Node, argsIndex *[]int32) {
 		break
 	case *ast.BetweenExpr:
 		expr := node.(*ast.BetweenExpr)
+		b.traversalArgs(expr.Expr, argsIndex)
 		b.traversalArgs(expr.Left, argsIndex)
 		b.traversalArgs(expr.Right, argsIndex)
 		break
 	case *ast.PatternInExpr:
+		b.traversalArgs(node.(*ast.PatternInExpr).Expr, argsIndex)
 		exprs := node.(*ast.PatternInExpr).List
 		for i := 0; i < len(exprs); i++ {
 			b.traversalArgs(exprs[i], argsIndex)
 		}
+		break
+	case *ast.ParenthesesExpr:
+		b.traversalArgs(node.(*ast.ParenthesesExpr).Expr, argsIndex)
+		break
+	case *ast.UnaryOperationExpr:
+		b.traversalArgs(node.(*ast.UnaryOperationExpr).V, argsIndex)
+		break
+	case *ast.PatternLikeExpr:
+		expr := node.(*ast.PatternLikeExpr)
+		b.traversalArgs(expr.Expr, argsIndex)
+		b.traversalArgs(expr.Pattern, argsIndex)
+		break
+	case *ast.IsNullExpr:
+		b.traversalArgs(node.(*ast.IsNullExpr).Expr, argsIndex)
 		break
 	case *test_driver.ParamMarkerExpr:
 		*argsIndex = append(*argsIndex, int32(node.(*test_driver.ParamMarkerExpr).Order))
